@@ -37,8 +37,15 @@ def rangeSpan (st : Option Sp) (lim : Sp) (en : Option Sp) : Sp :=
   let t := en.getD lim
   ⟨s.ls, s.cs, t.le, t.ce⟩
 
+/-- The first token of the expression as `syn` re-emits it is the first token of the run
+(a group is re-emitted with its whole span on its opening delimiter). -/
+def firstTokOk (e : UExpr) (run : List TT) : Bool :=
+  match e.toks.head?, run.head? with
+  | some t, some r => t.sp == r.span
+  | _, _ => false
+
 def exprSpansOk (e : UExpr) (run : List TT) : Bool :=
-  covers e.sp run &&
+  covers e.sp run && firstTokOk e run &&
   (match e.cls with
     | .range st lim en => covers (rangeSpan st lim en) run
     | _ => true)
@@ -58,11 +65,12 @@ segment are among its tokens (a leading `::` comes before the first segment).  D
 def oracleSpansOk (ts : List TT) (o : Oracle) : Bool :=
   o.exprs.all (fun ((path, idx), (n, _, e)) => match runAt ts path idx n with | some run => exprSpansOk e run | none => false) &&
   o.paths.all (fun ((path, idx), (n, _, p)) => match runAt ts path idx n with | some run => pathSpansOk p run | none => false) &&
-  o.closures.all (fun ((path, idx), (n, _, _, e)) => match runAt ts path idx n with | some run => covers e.sp run | none => false)
+  o.closures.all (fun ((path, idx), (n, _, _, e)) => match runAt ts path idx n with | some run => covers e.sp run && firstTokOk e run | none => false)
 
 /-- Group tokens span from their opening to their closing delimiter. -/
 def TT.wf : TT → Bool
   | .group _ sp so sc ts => sp.sameStart so && sp.sameEnd sc && ts.attach.all (fun ⟨t, _⟩ => t.wf)
+  | .punct _ _ sp => sp.le == sp.ls && sp.ce == sp.cs + 1      -- one character
   | _ => true
 
 def tokensWf (ts : List TT) : Bool := ts.all TT.wf
